@@ -30,6 +30,8 @@ def configs(tier, seed):
     out = []
     for cid, rn, sk in funcs.instances(tier):
         out.append(('grad/' + cid, dict(kind='grad', recipe=rn, sk=sk)))
+        if tier == 'thorough' and sk in ('rn', 'arn', 'discr') and funcs.supports_dim(rn, sk, 3):
+            out.append(('grad/%s/n=3' % cid, dict(kind='grad', recipe=rn, sk=sk, n=3)))
         if not (funcs.fby_name(rn).kind == 'sqrt' and 'pspace' in sk):
             out.append(('lipschitz/' + cid, dict(kind='lip', recipe=rn, sk=sk, _settings={'max_paths': 2500})))
     out.append(('registry/functionals-complete', dict(kind='registry')))
@@ -66,12 +68,12 @@ def directional_derivative(ctx, f, x, d):
     return (f(x + h * d) - f(x - h * d)) / (2 * h)
 
 
-def case(ctx, kind, recipe=None, sk=None):
+def case(ctx, kind, recipe=None, sk=None, n=None):
     if kind == 'registry':
         missing = funcs.unregistered_functionals()
         ctx.fact('every-functional-class-has-a-recipe-or-a-reason', not missing, 'unregistered: %s' % missing)
         return
-    r, f = funcs.build(ctx, recipe, sk)
+    r, f = funcs.build(ctx, recipe, sk, n=n)
     try:
         grad = f.gradient
     except NotImplementedError:
